@@ -6,6 +6,13 @@ import (
 	"os"
 	"sort"
 	"strings"
+	"verif/harness/internal/props/c06"
+	"verif/harness/internal/props/c07"
+	"verif/harness/internal/props/c08"
+	"verif/harness/internal/props/c09"
+	"verif/harness/internal/props/c12"
+	"verif/harness/internal/props/c14"
+	"verif/harness/internal/props/c19"
 
 	"verif/harness/internal/core"
 	"verif/harness/internal/props/c01"
@@ -23,6 +30,13 @@ import (
 )
 
 var drivers = map[string]core.Driver{
+	"C19": c19.Driver{},
+	"C14": c14.Driver{},
+	"C12": c12.Driver{},
+	"C09": c09.Driver{},
+	"C08": c08.Driver{},
+	"C07": c07.Driver{},
+	"C06": c06.Driver{},
 	"C01": c01.Driver{},
 	"C02": c02.Driver{},
 	"C03": c03.Driver{},
